@@ -117,14 +117,10 @@ def guard_blocks(ix, body, kind, protect):
         e, neg = sc
         if not (isinstance(e, tuple) and e[0] == "call"):
             continue
-        if kind == "running":
-            if not is_running_expr(ix, e):
-                continue
-            abort_on_true = False
-        else:
-            if e[1] != LIMITS_EXCEEDED:
-                continue
-            abort_on_true = True
+        pol = predicate_polarity(ix, e, kind)
+        if pol is None:
+            continue
+        abort_on_true = pol
         if neg:
             abort_on_true = not abort_on_true
         f, tr = switch_edges(blk.term)
@@ -139,6 +135,65 @@ def guard_blocks(ix, body, kind, protect):
         if not bad:
             out.append(blk.idx)
     return out
+
+
+_WRAP = {}
+
+
+def predicate_polarity(ix, e, kind, depth=0):
+    """If branching on the call expression `e` tests the abort predicate `kind` ('running' | 'limits'):
+    True when a true result means abort, False when a false result means abort, None when it is not such a test.
+    Direct calls of is_running / limits_exceeded, a direct load of a `running` atomic, and crate helper functions
+    whose one return value guarantees the predicate's continue side (e.g. `fn should_abort(&self, start) -> bool
+    { !self.is_running() || self.limits_exceeded(start) }`) are recognised."""
+    if kind == "running" and is_running_expr(ix, e):
+        return False
+    if kind == "limits" and e[1] == LIMITS_EXCEEDED:
+        return True
+    if depth > 2 or not isinstance(e[1], str) or e[1] not in ix.bodies or e[1] in (IS_RUNNING, LIMITS_EXCEEDED):
+        return None
+    key = (id(ix), e[1], kind)
+    if key not in _WRAP:
+        _WRAP[key] = None
+        _WRAP[key] = _wrapper_polarity(ix, ix.bodies[e[1]], kind, depth)
+    return _WRAP[key]
+
+
+def _wrapper_polarity(ix, h, kind, depth):
+    if not h.locals or h.locals[0]["ty"] != "bool":
+        return None
+    sym = mir.Sym(h, ix)
+    defs = [d for d in h.defs().get(0, []) if d[2].get("k") != "partial"]
+    if not defs:
+        return None
+    for abort_value in (True, False):
+        ok = True
+        for (db, di, rv) in defs:
+            v = sym.rvalue(rv) if rv.get("k") != "call" else ("call", mir.strip_generics(mir.callee_name(rv["t"])), tuple(sym.operand(a) for a in rv["t"]["args"]))
+            if v == ("const", 1 if abort_value else 0, "bool"):
+                continue  # this definition signals abort: nothing to prove
+            # this definition may yield the continue value: the predicate's continue side must be guaranteed
+            neg = False
+            x = v
+            while isinstance(x, tuple) and x[0] == "un" and x[1] == "Not":
+                x = x[2]
+                neg = not neg
+            direct = None
+            if isinstance(x, tuple) and x[0] == "call":
+                direct = predicate_polarity(ix, x, kind, depth + 1)
+            if direct is not None:
+                # value == predicate (possibly negated): continue value of H must coincide with continue side of the predicate
+                if (direct != neg) == abort_value:
+                    continue
+            # otherwise: reaching this definition must already imply the continue side (guards inside the helper)
+            guards = set(guard_blocks(ix, h, kind, {db})) if depth < 2 else set()
+            if guards and db not in h.reachable_from(0, removed=guards, include_start=True):
+                continue
+            ok = False
+            break
+        if ok:
+            return abort_value
+    return None
 
 
 def is_running_expr(ix, e):
@@ -159,6 +214,9 @@ def abortable_functions(ix):
     out = set()
     for b in ix.fn_bodies():
         if b.key in (IS_RUNNING, LIMITS_EXCEEDED):
+            continue
+        # helpers that merely wrap the abort predicates are tests, not searches
+        if b.locals and b.locals[0]["ty"] == "bool" and any(_wrapper_polarity(ix, b, k, 0) is not None for k in ("running", "limits")):
             continue
         r = ix.reachable([b.key])
         if IS_RUNNING in r or LIMITS_EXCEEDED in r:
